@@ -22,6 +22,7 @@ def check(run):
         run.floor('NAT.guard', 'operator impls', n, 9)
         n = T.check_conversions(run, F)
         run.floor('NAT.guard', 'conversions', n, 8)
+        T.check_cr_table(run, F)
         n = T.check_ctors(run, F)
         run.floor('NAT.ctor', 'optional constructors', n, 6)
         # casts involving time types: null -> null
@@ -40,8 +41,9 @@ def check(run):
         'null to null (time -> float listed as known findings). Unit table: all 12 ordered '
         'pairs, finer->coarser by div_euclid (toward the past), coarser->finer by multiplication '
         'with the exact ratio; constants have their defining values; polars unit arms agree. '
-        'Round trips with the calendar type within the representable range are calendar '
-        'arithmetic of chrono and not decided.',
+        'The conversions to and from the calendar type are chrono\'s own constructor / accessor for '
+        'the unit (or denote the same instant on a grid with pre-epoch fractions and the range '
+        'limits, TBL.cr); chrono\'s own round trip is trusted.',
         ASSUME, TRUSTED + ['chrono: from_timestamp / _millis / _micros return None for i64::MIN; '
                            'from_timestamp_nanos is total (read from chrono 0.4.45 source)'],
         'instances = operator impls, conversions, unit pairs, constants, cast instances')
